@@ -151,6 +151,7 @@ MUTANTS = [
     M('sema:scalar_type:width-dropped-for-float', 'sema', ['C09'], 'scalar_type_to_type', 'synast::ScalarTypeKind::Float => Type::Float(width, isconst.into()),', 'synast::ScalarTypeKind::Float => Type::Float(None, isconst.into()),'),
     M('sema:param_type:array-ref-as-scalar', 'sema', ['C09'], 'param_type_to_type', 'synast::ParamType::ArrayRefType(_) => return Type::ToDo,', 'synast::ParamType::ArrayRefType(_) => return Type::Void,'),
     M('sema:typed-param:bound-const', 'sema', ['C09'], 'bind_typed_parameter_list', 'param_type_to_type(&pt, false, context)', 'param_type_to_type(&pt, true, context)'),
+    M('sema:includes:parsed-despite-syntax-errors', 'sema', ['C11'], 'parse_source_and_includes', 'let parse_ok = parsed_source.have_parse() && parsed_source.errors().is_empty();', 'let parse_ok = parsed_source.have_parse();'),
     # ---- PARSER marker discipline
     M('parser:marker:complete-wrong-slot', 'parser', ['C01', 'C02'], 'Marker::complete', 'let idx = self.pos as usize;', 'let idx = (self.pos as usize) + 1;'),
     M('parser:marker:abandon-always-pops', 'parser', ['C01', 'C02'], 'Marker::abandon', 'if idx == p.events.len() - 1 {', 'if idx <= p.events.len() - 1 {'),
